@@ -277,7 +277,7 @@ func c28Run(line string) string {
 
 func c28Gen(w *bufio.Writer, seed int64, tier string) {
 	r := newRng(seed)
-	n := 150
+	n := 120
 	if tier == "thorough" {
 		n = 1500
 	}
